@@ -2511,6 +2511,22 @@ void eval_instruction (const char *p) {
             break;
           }
         case F_SUB_EQ:
+          if (sp->u.lvalue->type == T_LVALUE_BYTE)
+            {
+              /* documented: ++, --, += and -= are supported for char lvalues */
+              char c;
+
+              if ((sp - 1)->type != T_NUMBER)
+                error ("*Bad right type to -= of char lvalue.");
+              c = *global_lvalue_byte.u.lvalue_byte - (char)(sp - 1)->u.number;
+              if (c == '\0' && LVALUE_BYTE_IN_STRING ())
+                error ("*Strings cannot contain 0 bytes.");
+              *global_lvalue_byte.u.lvalue_byte = c;
+              sp--;
+              sp->u.number = (unsigned char)c;
+              sp->subtype = 0;
+              break;
+            }
           f_sub_eq ();
           break;
         case F_SIMUL_EFUN:
